@@ -346,7 +346,7 @@ pub fn verbose_message(seed: usize, storage: bool, out: &mut Vec<u8>) {
 
 /// the C07 / C08 / C09 bulk families; `prefix` is "c07", "c08" or "c09"
 pub fn run_bulk_families(ctx: &Ctx, prefix: &str, is_async: bool) {
-    run_bulk_selected(ctx, prefix, is_async, &["len_sweep", "long_streams", "default_capacity", "disturbed", "small_capacity"])
+    run_bulk_selected(ctx, prefix, is_async, &["len_sweep", "long_streams", "default_capacity", "disturbed", "small_capacity", "hostile_filtered"])
 }
 
 pub fn run_bulk_selected(ctx: &Ctx, prefix: &str, is_async: bool, which: &[&str]) {
@@ -507,6 +507,39 @@ pub fn run_bulk_selected(ctx: &Ctx, prefix: &str, is_async: bool, which: &[&str]
                 Err(why) => viol(loc, &key_of(&why), format!("short message, message of {} bytes, short message{}; {}", l, if storage { ", storage headers" } else { "" }, pat.describe(is_async)), why),
             }
         }).chunk(1));
+    }
+    // (6) hostile length fields x every header-type class x filters (filter shortcuts that look at
+    // the header alone must not trust a declared length)
+    if which.contains(&"hostile_filtered") {
+        let all_filters = crate::p04_consume::filter_configs();
+        let lens: Vec<usize> = vec![0, 1, 2, 3, 4, 5, 6, 7, 8, 9, 11, 12, 13, 14, 15, 16, 17, 18, 21, 22, 25, 26, 30, 65_535];
+        let pats = [Pattern { chunk: 0, disturb_every: 0 }, Pattern { chunk: 3, disturb_every: 2 }];
+        let sp = Space::new(&[64, lens.len(), 3, 2, all_filters.len(), pats.len()]);
+        let s2 = sp.clone();
+        let (lens, all_filters) = (&lens, &all_filters);
+        ctx.run_family(Family::new(format!("{}.bulk.hostile_filtered", prefix), sp.size(), format!("a good message, then a header with EVERY combination of the five HTYP flag bits (x 2 versions) declaring LEN in {:?} followed by 0 / 6 / 40 bytes, x storage mode x 5 filter configurations (none, keep all, drop all, level + ECU, context ids with a count above the set size) x 2 schedules", lens), move |i, loc| {
+            let c = s2.coords(i);
+            let htyp = ((c[0] & 0x1F) as u8) | if c[0] & 0x20 != 0 { 0x20 } else { 0x40 };
+            let (len, follow, storage, f, pat) = (lens[c[1]], [0usize, 6, 40][c[2]], c[3] == 1, &all_filters[c[4]], pats[c[5]]);
+            let mut s = vec![];
+            verbose_message(c[0], storage, &mut s);
+            if storage {
+                s.extend_from_slice(STORAGE_HDR);
+            }
+            s.extend_from_slice(&[htyp, 0x11, (len >> 8) as u8, len as u8]);
+            s.extend((0..follow).map(|k| if k % 5 == 4 { 0u8 } else { b'E' + (k % 7) as u8 }));
+            let s = Arc::new(s);
+            loc.evals += 1;
+            loc.traces += 1;
+            loc.state(i, true);
+            match run_reader(is_async, &s, storage, pat, Cap::Minimal, f.1.as_ref()) {
+                Ok(st) => {
+                    loc.transitions += st.deliveries + st.disturbances;
+                    loc.outcome("hostile header handled as the slice parser does");
+                }
+                Err(why) => viol(loc, &key_of(&why), format!("good message, then HTYP {:#04x} LEN {} + {} bytes{}; {}; filter: {}", htyp, len, follow, if storage { ", storage headers" } else { "" }, pat.describe(is_async), f.0), why),
+            }
+        }).trace(100_000));
     }
     // (5) readers built with small capacities (every message still fits message_max_len)
     if which.contains(&"small_capacity") {
